@@ -108,6 +108,65 @@ theorem pending_me (f : Nat → α) (cap : Nat) (s : St α) (me : Bool) (x y : N
       subst this; split <;> simp [hq]
 
 
+/-! ## A branch pulled alone (the other idle or dropped) needs no lead bound -/
+
+/-- invariant of a branch that is level with or ahead of the other one, without any bound on
+    its lead: the source stands at its cursor and nothing in the queue is waiting for it -/
+structure SoloInv (f : Nat → α) (s : St α) (me : Bool) (x : Nat) : Prop where
+  src_eq : ∀ i, s.src.at i = f i
+  pos_eq : s.src.pos = x
+  mine_empty : s.pending = me → s.q = []
+
+theorem soloInv_of_invMe (f : Nat → α) (cap : Nat) (s : St α) (me : Bool) (x y : Nat)
+    (hi : InvMe f cap s me x y) (hyx : y ≤ x) : SoloInv f s me x := by
+  obtain ⟨hsrc, _, hpos, hq, hp1, _⟩ := hi
+  refine ⟨hsrc, by rw [hpos]; omega, ?_⟩
+  intro hp
+  have hxy : x = y := by
+    apply Classical.byContradiction; intro hne
+    have := hp1 (by omega); rw [this] at hp; cases me <;> simp at hp
+  rw [hq, hxy]; simp
+
+theorem next_solo (f : Nat → α) (s : St α) (me : Bool) (x : Nat) (hi : SoloInv f s me x) :
+    (next s me).1 = f x ∧ SoloInv f (next s me).2 me (x + 1) := by
+  obtain ⟨hsrc, hpos, hm⟩ := hi
+  have hfx : s.src.at s.src.pos = f x := by rw [hpos]; exact hsrc x
+  by_cases hp : s.pending = me
+  · have key : next s me = pull { s with pending := !me } := by
+      unfold next; rw [if_pos hp, hm hp]
+    rw [key]
+    refine ⟨hfx, ⟨fun i => hsrc i, by show s.src.pos + 1 = x + 1; rw [hpos], ?_⟩⟩
+    intro h; exfalso; revert h; show (!me) = me → False; cases me <;> simp
+  · have key : next s me = pull s := by unfold next; rw [if_neg hp]
+    rw [key]
+    refine ⟨hfx, ⟨fun i => hsrc i, by show s.src.pos + 1 = x + 1; rw [hpos], ?_⟩⟩
+    intro h; exact absurd h hp
+
+theorem solo_of_soloInv (f : Nat → α) (me : Bool) (n : Nat) : ∀ (s : St α) (x : Nat),
+    SoloInv f s me x → (solo s me n).1 = (List.range' x n).map f := by
+  induction n with
+  | zero => intro s x _; rfl
+  | succ n ih =>
+    intro s x hi
+    obtain ⟨h1, h2⟩ := next_solo f s me x hi
+    show (next s me).1 :: (solo (next s me).2 me n).1 = _
+    rw [h1, ih _ _ h2, List.range'_succ, List.map_cons]
+
+/-- from any invariant state, however far apart the branches are, `n` pulls on branch `me`
+    alone yield the `n` consecutive source frames starting at its cursor: first whatever is
+    queued for it, then fresh frames — the lead bound does not constrain a lone branch -/
+theorem solo_of_invMe (f : Nat → α) (cap : Nat) (me : Bool) (n : Nat) : ∀ (s : St α) (x y : Nat),
+    InvMe f cap s me x y → (solo s me n).1 = (List.range' x n).map f := by
+  induction n with
+  | zero => intro s x y _; rfl
+  | succ n ih =>
+    intro s x y hi
+    by_cases hxy : x < y
+    · obtain ⟨h1, h2⟩ := next_me f cap s me x y hi (by omega)
+      show (next s me).1 :: (solo (next s me).2 me n).1 = _
+      rw [h1, ih _ _ _ h2, List.range'_succ, List.map_cons]
+    · exact solo_of_soloInv f me (n + 1) s x (soloInv_of_invMe f cap s me x y hi (by omega))
+
 /-! ## The two-cursor specification and the lift to whole schedules -/
 
 /-- abstract state: how many frames branch A resp. B has received -/
@@ -182,6 +241,7 @@ theorem step_spec (f : Nat → α) (cap : Nat) (s : St α) (c : Cur) (o : Op)
       rw [look_spec f cap _ _ hi', h.1]; rfl
   | resplitRef => exact ⟨look_spec f cap s c hi none, hi⟩
   | resplitRc => exact ⟨look_spec f cap s c hi none, hi⟩
+  | drop me => exact ⟨look_spec f cap s c hi none, hi⟩
 
 /-- refinement for whole schedules: the observable trace is the specified one and the
     state left behind satisfies the invariant for the advanced cursors -/
@@ -238,6 +298,10 @@ theorem logOf_spec (f : Nat → α) (me : Bool) (ops : List Op) : ∀ c : Cur,
       have hc : (c.step .resplitRc).of me = c.of me := rfl
       simp only [specTrace, logOf, ih, hc, pullsOf]
       rw [List.countP_cons_of_neg (by simp)]
+    | drop m =>
+      have hc : (c.step (.drop m)).of me = c.of me := rfl
+      simp only [specTrace, logOf, ih, hc, pullsOf]
+      rw [List.countP_cons_of_neg (by simp)]
 
 theorem cur_run_of (me : Bool) (ops : List Op) : ∀ c : Cur, (c.run ops).of me = c.of me + pullsOf me ops := by
   induction ops with
@@ -258,6 +322,7 @@ theorem cur_run_of (me : Bool) (ops : List Op) : ∀ c : Cur, (c.run ops).of me 
         rw [hc]; simp only [pullsOf]; rw [List.countP_cons_of_neg (by simpa using hne)]
     | resplitRef => simp only [pullsOf]; rw [List.countP_cons_of_neg (by simp)]; rfl
     | resplitRc => simp only [pullsOf]; rw [List.countP_cons_of_neg (by simp)]; rfl
+    | drop m => simp only [pullsOf]; rw [List.countP_cons_of_neg (by simp)]; rfl
 
 /-! ### re-splitting is the identity on the shared state -/
 
@@ -274,6 +339,7 @@ theorem run_erase_resplit (ops : List Op) : ∀ s : St α, run s ops = run s (op
     | pull m => simp only [List.filter, Op.isPull]; exact ih _
     | resplitRef => simp only [List.filter, Op.isPull]; exact ih _
     | resplitRc => simp only [List.filter, Op.isPull]; exact ih _
+    | drop m => simp only [List.filter, Op.isPull]; exact ih _
 
 theorem trace_erase_resplit (ops : List Op) : ∀ s : St α,
     (trace s ops).filter (fun o => o.frame.isSome) = trace s (ops.filter Op.isPull) := by
@@ -291,6 +357,9 @@ theorem trace_erase_resplit (ops : List Op) : ∀ s : St α,
       rw [List.filter_cons_of_neg (by simp [step, look]), ih]
     | resplitRc =>
       show ((step s .resplitRc).1 :: trace s r).filter _ = trace s (r.filter Op.isPull)
+      rw [List.filter_cons_of_neg (by simp [step, look]), ih]
+    | drop m =>
+      show ((step s (.drop m)).1 :: trace s r).filter _ = trace s (r.filter Op.isPull)
       rw [List.filter_cons_of_neg (by simp [step, look]), ih]
 
 end Dasp.Fork
